@@ -839,8 +839,8 @@ theorem trace_unit_directions (sqrt : K → K) (hsq : ∀ x, 0 ≤ x → sqrt x 
         rcases List.mem_cons.mp hm with e | e
         · rw [e]; exact u.1
         · exact r.2 h' e
-/-- non-vacuity of `trace_unit_directions`: an axial ray onto a plane mirror is traced (convergence by `plane_intersect_converges`), all hypotheses hold -/
-example : ∃ hits, trace Real.sqrt ltK (1 / 10 : ℝ) 5 [⟨Kind.reflect, ⟨0, 0, 0⟩, none, Shape.plane, 1⟩] ⟨0, 0, -1⟩ ⟨0, 0, 1⟩ 1 = some hits ∧
+/-- non-vacuity of `trace_unit_directions` / `trace_snell` / `trace_on_surface`: an axial ray onto a plane mirror is traced (convergence by `plane_intersect_converges`), all hypotheses hold -/
+theorem plane_mirror_traced : ∃ hits, trace Real.sqrt ltK (1 / 10 : ℝ) 5 [⟨Kind.reflect, ⟨0, 0, 0⟩, none, Shape.plane, 1⟩] ⟨0, 0, -1⟩ ⟨0, 0, 1⟩ 1 = some hits ∧
     V3.dot (⟨0, 0, 1⟩ : V3 ℝ) ⟨0, 0, 1⟩ = 1 ∧ Orth (none : Option (M3 ℝ)) ∧
     NoTIR [⟨Kind.reflect, ⟨0, 0, 0⟩, none, Shape.plane, 1⟩] hits 1 := by
   obtain ⟨Pj, r, hI, _⟩ := plane_intersect_converges Real.sqrt (toLocalP (⟨0, 0, 0⟩ : V3 ℝ) none ⟨0, 0, -1⟩) (toLocalS none ⟨0, 0, 1⟩)
@@ -857,6 +857,228 @@ example : ∃ hits, trace Real.sqrt ltK (1 / 10 : ℝ) 5 [⟨Kind.reflect, ⟨0,
     simp only [trace, traceOne, hI', Option.some.injEq] at ht
     subst ht
     simp [NoTIR]
+
+/-! ## second pass: Snell / reflection / on-surface through the whole trace, index bookkeeping -/
+
+/-- what the tracer does at ONE surface, stated on the recorded hit: frame bookkeeping, law of reflection at a mirror, Snell's law in
+vector form at a refracting surface with the index in front (`n`) and behind (`sf.n`), nothing at an evaluation surface, and the index
+carried on to the next surface -/
+def SurfaceLaw (sf : Surface K) (n : K) (h : Hit K) : Prop :=
+  h.Sg = toGlobalS sf.R h.Sout ∧ h.Pg = toGlobalP sf.P sf.R h.Ploc ∧
+  (sf.kind = Kind.reflect → V3.dot h.Sout h.r = -V3.dot h.Sloc h.r ∧ V3.cross (V3.sub h.Sout h.Sloc) h.r = ⟨0, 0, 0⟩ ∧ h.n = n) ∧
+  (sf.kind = Kind.refract → V3.smul sf.n (V3.cross h.Sout h.r) = V3.smul n (V3.cross h.Sloc h.r) ∧ h.n = sf.n) ∧
+  (sf.kind = Kind.eval → h.Sout = h.Sloc ∧ h.n = n)
+
+/-- ONE SURFACE of the model tracer obeys `SurfaceLaw`: mirror law about the normal actually used, vector Snell law with the threaded
+indices, frame bookkeeping, and the index handed on (unchanged by mirrors and evaluation surfaces, `sf.n` after a refracting surface) -/
+theorem traceOne_laws (sqrt : K → K) (hs : ∀ x, 0 ≤ x → sqrt x * sqrt x = x) (eps : K) (maxiter : Nat)
+    (sf : Surface K) (P S : V3 K) (n : K) (h : Hit K)
+    (ht : traceOne sqrt ltK eps maxiter sf P S n = some h) (hS : V3.dot S S = 1) (hR : Orth sf.R)
+    (hrefr : sf.kind = Kind.refract → sf.n ≠ 0 ∧ 0 ≤ radicand n sf.n h.Sloc h.r) :
+    SurfaceLaw sf n h := by
+  have hu := traceOne_unit sqrt hs eps maxiter sf P S n h ht hS hR hrefr
+  unfold traceOne at ht
+  simp only at ht
+  cases hI : intersect sqrt ltK sf.shape (toLocalP sf.P sf.R P) (toLocalS sf.R S) eps maxiter with
+  | none => rw [hI] at ht; simp at ht
+  | some pr =>
+    obtain ⟨Pj, r⟩ := pr
+    rw [hI] at ht
+    simp only [Option.some.injEq] at ht
+    have hz : r.z = 1 := newton_normal_z sqrt ltK sf.shape _ _ eps maxiter 0 Pj r hI
+    have hr : r ≠ ⟨0, 0, 0⟩ := by
+      intro e; rw [e] at hz; simp at hz
+    have hS0 : V3.dot (toLocalS sf.R S) (toLocalS sf.R S) = 1 := by rw [toLocalS_norm _ hR, hS]
+    subst ht
+    refine ⟨rfl, rfl, ?_, ?_, ?_⟩
+    · intro hk
+      simp only [hk]
+      have := reflect_mirror (toLocalS sf.R S) r hr
+      rw [gen_reflect] at this
+      exact ⟨this.1, this.2, by first | rfl | trivial⟩
+    · intro hk
+      simp only [hk] at hrefr ⊢
+      obtain ⟨hn', hrad⟩ := hrefr trivial
+      have hσ := hs _ hrad
+      refine ⟨?_, by first | rfl | trivial⟩
+      by_cases hc : V3.dot r (toLocalS sf.R S) < 0
+      · have hσ' : (-sqrt (radicand n sf.n (toLocalS sf.R S) r)) * (-sqrt (radicand n sf.n (toLocalS sf.R S) r))
+            = radicand n sf.n (toLocalS sf.R S) r := by rw [neg_mul_neg]; exact hσ
+        have := (refract_core n sf.n _ (toLocalS sf.R S) r hr hS0 hn' hσ').2.1
+        simpa only [Model.C19.refract, ltK, decide_eq_true_eq, hc, if_true, radicand] using this
+      · have := (refract_core n sf.n _ (toLocalS sf.R S) r hr hS0 hn' hσ).2.1
+        simpa only [Model.C19.refract, ltK, decide_eq_true_eq, hc, if_false, radicand] using this
+    · intro hk
+      simp only [hk]
+      exact ⟨by first | rfl | trivial, by first | rfl | trivial⟩
+
+/-- the per-surface laws along a whole prescription, the index in front of each surface being the one the previous hit carries -/
+def TraceLaws : List (Surface K) → List (Hit K) → K → Prop
+  | [], [], _ => True
+  | sf :: ss, h :: hs, n => SurfaceLaw sf n h ∧ TraceLaws ss hs h.n
+  | _, _, _ => False
+
+/-- WHOLE TRACE — SNELL AT EVERY REFRACTING SURFACE AND THE LAW OF REFLECTION AT EVERY MIRROR, through any prescription (any number / mix
+of surfaces, shapes, orthogonal frames), by induction over the surface list: `n_before (S×r) = n_after (S'×r)` with `n_before` the index
+the previous hit carries (so a mirror inside glass leaves the index of the glass in force), `S'·r = −S·r` and `(S'−S)×r = 0` at mirrors.
+Hypotheses: unit start direction, orthogonal frames, below the critical angle (`NoTIR`); `r` is the vector the Newton loop returned -/
+theorem trace_snell (sqrt : K → K) (hsq : ∀ x, 0 ≤ x → sqrt x * sqrt x = x) (eps : K) (maxiter : Nat) :
+    ∀ (surfs : List (Surface K)) (P S : V3 K) (n : K) (hits : List (Hit K)),
+      trace sqrt ltK eps maxiter surfs P S n = some hits → V3.dot S S = 1 → (∀ sf ∈ surfs, Orth sf.R) →
+      NoTIR surfs hits n → TraceLaws surfs hits n := by
+  intro surfs
+  induction surfs with
+  | nil =>
+    intro P S n hits ht _ _ _
+    simp only [trace, Option.some.injEq] at ht
+    subst ht
+    simp [TraceLaws]
+  | cons sf ss ih =>
+    intro P S n hits ht hS hO hN
+    simp only [trace] at ht
+    cases h1 : traceOne sqrt ltK eps maxiter sf P S n with
+    | none => rw [h1] at ht; simp at ht
+    | some h =>
+      rw [h1] at ht
+      simp only at ht
+      cases h2 : trace sqrt ltK eps maxiter ss h.Pg h.Sg h.n with
+      | none => rw [h2] at ht; simp at ht
+      | some hs' =>
+        rw [h2] at ht
+        simp only [Option.some.injEq] at ht
+        subst ht
+        simp only [NoTIR] at hN
+        have u := traceOne_unit sqrt hsq eps maxiter sf P S n h h1 hS (hO sf (List.mem_cons_self ..)) hN.1
+        have l := traceOne_laws sqrt hsq eps maxiter sf P S n h h1 hS (hO sf (List.mem_cons_self ..)) hN.1
+        exact ⟨l, ih h.Pg h.Sg h.n hs' h2 u.1 (fun sf' hm => hO sf' (List.mem_cons_of_mem _ hm)) hN.2⟩
+/-- POST-CONDITION of the model's Newton loop, by induction over the iteration budget (convergence is NOT claimed): whatever it returns is
+a point `P1 + s·S` of the ray, the normal vector of the surface at that point, and — when `F' = S·r ≠ 0` — a sag residual below
+`eps · max(1, |P|_∞) · |F'|` -/
+theorem newton_model_postcondition (sqrt : K → K) (sh : Shape K) (P1 S : V3 K) (eps : K) :
+    ∀ (fuel : Nat) (sj : K) (Pj r : V3 K), newton sqrt ltK sh P1 S eps fuel sj = some (Pj, r) →
+      ∃ s, Pj = V3.add P1 (V3.smul s S) ∧ r = (sagNormal sqrt sh Pj.x Pj.y).2 ∧
+        (V3.dot S r ≠ 0 →
+          |Pj.z - (sagNormal sqrt sh Pj.x Pj.y).1| < eps * newtonScale ltK Pj * |V3.dot S r|) := by
+  intro fuel
+  induction fuel with
+  | zero => intro sj Pj r h; simp [newton] at h
+  | succ f ih =>
+    intro sj Pj r h
+    simp only [newton] at h
+    generalize hstep : newtonStep sqrt sh P1 S sj = st at h
+    obtain ⟨Pj', r', s'⟩ := st
+    simp only [newtonStep, Prod.mk.injEq] at hstep
+    obtain ⟨hP, hr, hs'⟩ := hstep
+    simp only at h
+    have stop : |s' - sj| < eps * newtonScale ltK Pj' → some (Pj', r') = some (Pj, r) →
+        ∃ s, Pj = V3.add P1 (V3.smul s S) ∧ r = (sagNormal sqrt sh Pj.x Pj.y).2 ∧
+          (V3.dot S r ≠ 0 → |Pj.z - (sagNormal sqrt sh Pj.x Pj.y).1| < eps * newtonScale ltK Pj * |V3.dot S r|) := by
+      intro hlt he
+      have e := Option.some.inj he
+      have e1 : Pj' = Pj := congrArg Prod.fst e
+      have e2 : r' = r := congrArg Prod.snd e
+      subst e1 e2
+      refine ⟨sj, hP.symm, ?_, ?_⟩
+      · rw [← hr, hP]
+      · intro hF
+        have hpos : 0 < |V3.dot S r'| := abs_pos.mpr hF
+        have : |s' - sj| = |Pj'.z - (sagNormal sqrt sh Pj'.x Pj'.y).1| / |V3.dot S r'| := by
+          rw [← hs', ← hr, hP, sub_sub_cancel_left, abs_neg, abs_div]
+        rw [this, div_lt_iff₀ hpos] at hlt
+        exact hlt
+    split at h <;> split at h
+    · rename_i hneg hst
+      simp only [ltK, decide_eq_true_eq] at hneg hst
+      exact stop (by rw [abs_of_neg hneg]; exact hst) h
+    · exact ih _ _ _ h
+    · rename_i hneg hst
+      simp only [ltK, decide_eq_true_eq, not_lt] at hneg hst
+      exact stop (by rw [abs_of_nonneg hneg]; exact hst) h
+    · exact ih _ _ _ h
+/-- Newton POST-CONDITION at one recorded hit (NOT convergence): the hit lies on the local incident ray through the vertex-plane point, the
+recorded normal is the surface normal vector at the hit, and the sag residual is below `eps · max(1, |P|_∞) · |S·r|` -/
+def OnSurfaceLaw (sqrt : K → K) (eps : K) (sf : Surface K) (P S : V3 K) (h : Hit K) : Prop :=
+  h.Sloc = toLocalS sf.R S ∧
+  ∃ s, h.Ploc = V3.add (Model.C19.toVertexPlane (toLocalP sf.P sf.R P) (toLocalS sf.R S)) (V3.smul s (toLocalS sf.R S)) ∧
+    h.r = (sagNormal sqrt sf.shape h.Ploc.x h.Ploc.y).2 ∧
+    (V3.dot h.Sloc h.r ≠ 0 →
+      |h.Ploc.z - (sagNormal sqrt sf.shape h.Ploc.x h.Ploc.y).1| < eps * newtonScale ltK h.Ploc * |V3.dot h.Sloc h.r|)
+
+/-- the post-condition at one surface of the model tracer -/
+theorem traceOne_on_surface (sqrt : K → K) (eps : K) (maxiter : Nat) (sf : Surface K) (P S : V3 K) (n : K) (h : Hit K)
+    (ht : traceOne sqrt ltK eps maxiter sf P S n = some h) : OnSurfaceLaw sqrt eps sf P S h := by
+  unfold traceOne at ht
+  simp only at ht
+  cases hI : intersect sqrt ltK sf.shape (toLocalP sf.P sf.R P) (toLocalS sf.R S) eps maxiter with
+  | none => rw [hI] at ht; simp at ht
+  | some pr =>
+    obtain ⟨Pj, r⟩ := pr
+    rw [hI] at ht
+    simp only [Option.some.injEq] at ht
+    obtain ⟨s, h1, h2, h3⟩ := newton_model_postcondition sqrt sf.shape _ _ eps maxiter 0 Pj r hI
+    subst ht
+    exact ⟨rfl, s, h1, h2, h3⟩
+
+/-- the post-condition along a whole prescription: each surface is met by the ray the previous hit sends on (global `Pg`, `Sg`) -/
+def TraceOnSurface (sqrt : K → K) (eps : K) : List (Surface K) → List (Hit K) → V3 K → V3 K → Prop
+  | [], [], _, _ => True
+  | sf :: ss, h :: hs, P, S => OnSurfaceLaw sqrt eps sf P S h ∧ TraceOnSurface sqrt eps ss hs h.Pg h.Sg
+  | _, _, _, _ => False
+
+/-- WHOLE TRACE — ON-SURFACE UNDER THE NEWTON POST-CONDITION (clearly: IF the tracer returns hits, i.e. the iteration stopped at every
+surface; convergence itself is proved only for planes, compared with the closed form for conics): every recorded hit of every
+prescription lies on the ray sent on by the previous hit, within `eps·scale·|F'|` of the surface, with the true normal vector there -/
+theorem trace_on_surface (sqrt : K → K) (eps : K) (maxiter : Nat) :
+    ∀ (surfs : List (Surface K)) (P S : V3 K) (n : K) (hits : List (Hit K)),
+      trace sqrt ltK eps maxiter surfs P S n = some hits → TraceOnSurface sqrt eps surfs hits P S := by
+  intro surfs
+  induction surfs with
+  | nil =>
+    intro P S n hits ht
+    simp only [trace, Option.some.injEq] at ht
+    subst ht
+    simp [TraceOnSurface]
+  | cons sf ss ih =>
+    intro P S n hits ht
+    simp only [trace] at ht
+    cases h1 : traceOne sqrt ltK eps maxiter sf P S n with
+    | none => rw [h1] at ht; simp at ht
+    | some h =>
+      rw [h1] at ht
+      simp only at ht
+      cases h2 : trace sqrt ltK eps maxiter ss h.Pg h.Sg h.n with
+      | none => rw [h2] at ht; simp at ht
+      | some hs' =>
+        rw [h2] at ht
+        simp only [Option.some.injEq] at ht
+        subst ht
+        exact ⟨traceOne_on_surface sqrt eps maxiter sf P S n h h1, ih h.Pg h.Sg h.n hs' h2⟩
+/-- the index carried to the next surface, translated from the `if surf.typ == REFLECT / elif REFRACT / else` dispatch of `raytrace`:
+unchanged by a mirror (NOT reset to the ambient index), the surface's index after a refraction, unchanged by an evaluation surface -/
+theorem gen_index_threading (a n n' : K) :
+    Generated.C19.indexAfter true false a n n' = n ∧ Generated.C19.indexAfter false true a n n' = n' ∧
+    Generated.C19.indexAfter false false a n n' = n := by
+  refine ⟨?_, ?_, ?_⟩ <;> simp [Generated.C19.indexAfter]
+
+/-- the index bookkeeping of the model tracer (part of `SurfaceLaw`) IS the translated one, whatever the ambient index -/
+theorem surface_index (sf : Surface K) (n a : K) (h : Hit K) (sl : SurfaceLaw sf n h) :
+    h.n = Generated.C19.indexAfter (decide (sf.kind = Kind.reflect)) (decide (sf.kind = Kind.refract)) a n sf.n := by
+  obtain ⟨_, _, h1, h2, h3⟩ := sl
+  cases hk : sf.kind with
+  | reflect => simp only [hk, decide_true, reduceCtorEq, decide_false]; rw [(gen_index_threading a n sf.n).1]; exact (h1 hk).2.2
+  | refract => simp only [hk, decide_true, reduceCtorEq, decide_false]; rw [(gen_index_threading a n sf.n).2.1]; exact (h2 hk).2
+  | eval => simp only [hk, decide_true, reduceCtorEq, decide_false]; rw [(gen_index_threading a n sf.n).2.2]; exact (h3 hk).2
+
+/-- non-vacuity: the hypotheses of `trace_snell` and `trace_on_surface` are met by the traced plane mirror, and the conclusions follow -/
+example : ∃ hits, TraceLaws [(⟨Kind.reflect, ⟨0, 0, 0⟩, none, Shape.plane, 1⟩ : Surface ℝ)] hits 1 ∧
+    TraceOnSurface Real.sqrt (1 / 10 : ℝ) [⟨Kind.reflect, ⟨0, 0, 0⟩, none, Shape.plane, 1⟩] hits ⟨0, 0, -1⟩ ⟨0, 0, 1⟩ := by
+  obtain ⟨hits, ht, hS, hO, hN⟩ := plane_mirror_traced
+  refine ⟨hits, trace_snell Real.sqrt (fun _ h => Real.mul_self_sqrt h) _ _ _ _ _ _ hits ht hS ?_ hN,
+    trace_on_surface Real.sqrt _ _ _ _ _ _ hits ht⟩
+  intro sf hm
+  rw [List.mem_singleton] at hm
+  rw [hm]
+  exact hO
 
 /-! ## non-vacuity: the hypotheses are met by the real square root and by concrete rays -/
 
